@@ -1,6 +1,7 @@
 (* C04 Representation transparency: lifecycle and maintenance never change answers. Statements only. *)
 Require Import Pearl.Base.Prelude Pearl.Storage.Model Pearl.Storage.Spec Pearl.Storage.Inv
                Pearl.Storage.ReadProofs Pearl.Storage.InvProofs Pearl.Storage.Theorems.
+Require Pearl.Generated.Facts.
 
 (* After every history, an operation that is not a write or a delete (nor damage done to a blob file by a crash between
    two sessions, OCut, which is not an operation of the storage: is_data_op counts it with them) -- close / create / restore of the
@@ -75,3 +76,9 @@ Print Assumptions C04_read_unchanged.
 Print Assumptions C04_invariant_kept.
 Print Assumptions C04_still_writable.
 Print Assumptions C04_write_acknowledged.
+
+(* closing a blob into a filter group whose filter was given up (after offload_buffer) must not re-initialise that filter
+   from the new blob alone: structural fact re-extracted on every run *)
+Theorem C04_source_group_filter_initialised_only_when_empty : Pearl.Generated.Facts.GROUP_FILTER_INITIALISED_ONLY_WHEN_EMPTY = true.
+Proof. reflexivity. Qed.
+Print Assumptions C04_source_group_filter_initialised_only_when_empty.
